@@ -684,6 +684,20 @@ def panic_guarded(site):
                 coll = canon(b_pe(b, e[2][0]), 0, 1)
                 if coll in x:
                     return 'guarded by !is_empty()'
+    if kind == 'assert_overflow:Sub':
+        e = b.pexpr_operand(t['cond'])
+        for x in walk(e):
+            if x[0] == 'bin' and x[1] == 'Sub':
+                A, B = canon(x[2], 0, 1), canon(x[3], 0, 1)
+                for le, truth, _ in bool_literals_at(b, bb):
+                    f = canon(b_pe(b, _phi(b, le)), 0, 1)
+                    if truth and f in ('(%s <= %s)' % (B, A), '(%s < %s)' % (B, A)) or (truth and B == '1' and f == '(0 < %s)' % A) or \
+                            (not truth and f in ('(%s < %s)' % (A, B), '(%s <= %s)' % (A, B))):
+                        return 'guarded by %s%s' % ('' if truth else '!', f)
+                    # PartialOrd::gt(A, 0) style
+                    if truth and le[0] == 'call' and le[1].split('::')[-1] in ('gt',) and len(le[2]) == 2 and canon(_phi(b, le[2][0]), 0, 1) == A and B == '1':
+                        return 'guarded by %s > 0' % A
+                break
     if kind == 'index' and len(t.get('args', [])) > 1:
         rng = b.pexpr_operand(t['args'][1])
         end = None
@@ -707,6 +721,11 @@ def panic_guarded(site):
                         if lx == x and n >= end and ((e[1] == 'Lt' and not truth) or (e[1] == 'Ge' and truth)):
                             return 'guarded by len >= %d' % n
     return None
+
+
+def _phi(b, e):
+    """literals come from expr_operand (no phi expansion); canonical comparison needs the same expansion as the site: re-derive named locals"""
+    return e
 
 
 def b_pe(b, e):
